@@ -197,6 +197,8 @@ LEVEL_TEXT['C02'] += ' Added (unit listparse): Parser::list hands out exactly th
 TECH['C02'] += ' + Parser::list (monitor of parsed and-or lists and separators)'
 LEVEL_TEXT['C20'] += ' Added (unit cdsyntax, unbounded Verus proof): the interpretation the cd built-in gives to parsed options and operands depends only on the sequence of occurrences and the operands, by the documented rules (last of -L / -P wins, -e only with -P, at most one non-empty operand).'
 TECH['C20'] += ' + contract-based deductive verification (Verus, Z3) of cd::syntax::parse'
+LEVEL_TEXT['C02'] += ' Added (unit andorparse): Parser::and_or_list pairs every pipeline after the first with the operator consumed right in front of it (AndThen exactly for `&&`).'
+TECH['C02'] += ' + Parser::and_or_list'
 
 def main():
     checks = []
